@@ -269,7 +269,8 @@ void Kernel::reap_to_zombie(Proc *p, int status) {
   for (auto &pp : procs) if (pp.second->ppid == p->pid && pp.second != p) { pp.second->ppid = 0; if (pp.second->st == Proc::ZOMBIE) pp.second->st = Proc::GONE; }
   Proc *par = find_proc(p->ppid);
   Event e; e.call = C_EXIT; e.proc = p; e.pid = p->pid; e.a = status; e.ret = 0; emit(e);
-  if (!par || par->st != Proc::LIVE || par->autoreap) p->st = Proc::GONE;
+  // POSIX: a parent that has set SIGCHLD to SIG_IGN gets no zombies; its wait calls block until the last child is gone and then fail with ECHILD
+  if (!par || par->st != Proc::LIVE || par->autoreap || par->sig[SIGCHLD].handler == SIG_IGN) p->st = Proc::GONE;
   else post_signal(par, SIGCHLD);
 }
 
